@@ -239,6 +239,23 @@ def checkSpec (fx : Fixes) (sp : Spec) (pol : Policy) : State → List Arg → B
       (hs, ok && oks, obj [("hyp", Json.bool hyp), ("ok", Json.bool ok), ("want", want)] :: ds)
     | .error _ => (true, ok, [obj [("hyp", Json.bool hyp), ("ok", Json.bool ok), ("want", want)]])
 
+def runToJson (x : Except Err (List Result)) : Json :=
+  match x with
+  | .ok rs => obj [("ok", ofList resultToJson rs)]
+  | .error e => obj [("err", Json.str (errName e))]
+
+/-- (C) for `run_eq_runSplit` / `run_eq_runCore`: the three executable readings of a history, compared by value -/
+def splitCheck (fx : Fixes) (L : Learner) (st : State) (calls : List Arg) : Json :=
+  let r := (runToJson (run fx L st calls)).compress
+  let s := (runToJson (runSplit fx L st calls)).compress
+  let c := (runToJson (runCore fx L st calls)).compress
+  let dec : Json := match calls with
+    | a :: _ => (match predict fx L st a with
+      | .ok (_, st') => (match st'.decided? with | some d => Json.str (reprStr d) | none => Json.null)
+      | .error _ => Json.null)
+    | [] => Json.null
+  obj [("split_ok", Json.bool (r == s)), ("core_ok", Json.bool (r == c)), ("n", ofNat calls.length), ("decided", dec)]
+
 def handle (req : Json) : Except String Json := do
   let fxj ← field req "fx"
   let fx : Fixes := ⟨← bool (← field fxj "short"), ← bool (← field fxj "batch"), ← bool (← field fxj "col"), ← bool (← field fxj "rowdict")⟩
@@ -257,6 +274,7 @@ def handle (req : Json) : Except String Json := do
       pure (a, r))
     let (rs, ts) := runAll fx (recorded table) st calls
     out := out ++ [("recorded", Json.arr rs.toArray), ("recorded_trace", Json.arr ts.toArray)]
+    out := out ++ [("recorded_split", splitCheck fx (recorded table) st calls)]
   | .error _ => pure ()
   -- two wrappers around one learner (`SafeLearner(SafeLearner(L), seed2)`), calls interleaved as `who` says
   match req.getObjVal? "who", req.getObjVal? "recorded" with
@@ -292,6 +310,7 @@ def handle (req : Json) : Except String Json := do
     let L := scripted sp pol
     let (rs, ts) := runAll fx L st calls
     out := out ++ [("scripted", Json.arr rs.toArray), ("scripted_trace", Json.arr ts.toArray)]
+    out := out ++ [("scripted_split", splitCheck fx L st calls)]
     -- whole history incl. learn (runHistory), its side condition (histOK), and score
     match req.getObjVal? "rewards" with
     | .ok rwj =>
@@ -305,6 +324,18 @@ def handle (req : Json) : Except String Json := do
         | .error e => obj [("err", Json.str (errName e))]
       let batched := match calls with | (.batch ..) :: _ => true | _ => false
       out := out ++ [("history", hres), ("histOK", Json.bool (histOK fx sp pol batched st hist))]
+    | .error _ => pure ()
+    -- predict / learn with both call-style memos threaded (also for wrappers switched between batched and unbatched calls)
+    match req.getObjVal? "rewards_all" with
+    | .ok rwj =>
+      let rws ← (← arr rwj).mapM parseVal
+      let batchable := match req.getObjVal? "learn_batch" with | .ok (Json.bool b) => b | _ => sp.layout != .single
+      let learnJson (c : LearnCall) : Json := obj [("ctx", valToJson c.ctx), ("action", valToJson c.action), ("reward", valToJson c.reward),
+        ("prob", valToJson c.prob), ("kw", valToJson (.dict .tmp c.kwKeys c.kwVals))]
+      let hm := runHistoryM fx L batchable st Option.none (calls.zip rws)
+      out := out ++ [("historyM", ofList (fun (x : Except Err (Result × List LearnCall)) => match x with
+        | .ok o => obj [("ok", ofList learnJson o.2)]
+        | .error e => obj [("err", Json.str (errName e))]) hm)]
     | .error _ => pure ()
     match req.getObjVal? "scores" with
     | .ok sj =>
